@@ -1,5 +1,5 @@
 """C10 — numeric coding is an order embedding; range decomposition is exact."""
-GEN = False            # becomes True when BlugeGen.C10 (translated kernels) lands
+GEN = True             # go/extract/c10.go translates the numeric kernels from source into lean/BlugeGen/C10.lean
 STATELESS = True
 ASSUMPTIONS = [
     "Go's int64/uint64 arithmetic is two's-complement wrap-around as modelled by BitVec 64",
